@@ -919,4 +919,127 @@ theorem blockAt_heights {a a' : RbAcc} {cur : Nat} (h : rollbackBlockAt c a cur 
 
 end blk
 
+-- ------------------------------------------------------------------ Rollback of the tip, disconnectBlock
+
+/-- `BlkRel` with the static predicate `N` for "no tx record in the real store" -/
+def BlkRelN (N : TxId × BlockMeta → Prop) (h : Nat) : Option (BlkId × List TxId) → Option (BlkId × List TxId) → Prop
+  | none, r => r = none
+  | some (bh, txs), r => ∃ p : TxId → Bool,
+      (∀ id, p id = false → N (id, ⟨h, bh⟩)) ∧ (r = some (bh, txs.filter p) ∨ (r = none ∧ ∀ id ∈ txs, p id = false))
+
+theorem blkRelN_of_blkRel {s : Store} {h : Nat} {rg r : Option (BlkId × List TxId)} (hb : BlkRel s h rg r) :
+    BlkRelN (fun k => AMap.get s.txrecs k = none) h rg r := by
+  cases rg with
+  | none => exact hb
+  | some x => obtain ⟨bh, txs⟩ := x; exact hb
+
+theorem eraseHs_eq (hs : List Nat) (s : Store) :
+    hs.foldl (fun s h => { s with blocks := AMap.erase s.blocks h }) s =
+      { s with blocks := hs.foldl (fun b h => AMap.erase b h) s.blocks } := by
+  induction hs generalizing s with
+  | nil => rfl
+  | cons a l ih => simp only [List.foldl_cons]; rw [ih]
+
+theorem tipBlocks (B : AMap.T Nat (BlkId × List TxId)) (h h' : Nat) :
+    AMap.get ((([] : List Nat) ++ (if (AMap.get B h).isSome then [h] else [])).foldl (fun b x => AMap.erase b x) B) h' =
+      if h' = h then none else AMap.get B h' := by
+  cases e : AMap.get B h with
+  | none =>
+    simp only [Option.isSome_none, Bool.false_eq_true, if_false, List.append_nil, List.foldl_nil]
+    by_cases hh : h' = h
+    · rw [if_pos hh, hh, e]
+    · rw [if_neg hh]
+  | some r =>
+    simp only [Option.isSome_some, if_true, List.nil_append, List.foldl_cons, List.foldl_nil]
+    rw [AMap.get_erase]
+    by_cases hh : h' = h
+    · rw [if_pos hh, if_pos hh.symm]
+    · rw [if_neg hh, if_neg (fun e => hh e.symm)]
+
+section rb
+variable {w : Wid} {addrs : List Addr} {P : CredKey → Addr → Prop} {T : TxId × BlockMeta → BlkId × Nat → Prop}
+  {N : TxId × BlockMeta → Prop} {c : Ctx}
+
+theorem blockAt_rel2 (hOwn : OwnW c w addrs) (hCV : ∀ blk, CredVal c P T blk) {G S : AMap.T Nat (BlkId × List TxId)}
+    {cur : Nat} {ga sa ga' sa' : RbAcc}
+    (h : WR w addrs P T N G S ga.s sa.s) (hb : BalR w ga.bals sa.bals)
+    (hblk : BlkRelN N cur (AMap.get G cur) (AMap.get S cur))
+    (hg : rollbackBlockAt c ga cur = .ok ga') (hs : rollbackBlockAt c sa cur = .ok sa') :
+    WR w addrs P T N G S ga'.s sa'.s ∧ BalR w ga'.bals sa'.bals := by
+  cases hG : AMap.get G cur with
+  | none =>
+    rw [hG] at hblk
+    have hS : AMap.get S cur = none := hblk
+    unfold rollbackBlockAt at hg hs
+    rw [h.rs.2.2.2.2.1, hG] at hg
+    rw [h.rs.2.2.2.2.2, hS] at hs
+    cases hg; cases hs
+    exact ⟨h, hb⟩
+  | some r =>
+    obtain ⟨bh, txs⟩ := r
+    rw [hG] at hblk
+    obtain ⟨p, hp, hS⟩ := hblk
+    exact blockAt_rel hOwn (hCV _) h hb hG p hp hS hg hs
+
+/-- Rollback of the tip block on both stores -/
+theorem rollback_rel (hOwn : OwnW c w addrs) (hCV : ∀ blk, CredVal c P T blk) {g s g1 s1 : Store} {h : Nat}
+    (h0 : WR w addrs P T N g.blocks s.blocks g s) (hh : g.syncedTo = h)
+    (hblk : BlkRelN N h (AMap.get g.blocks h) (AMap.get s.blocks h))
+    (hg : rollback c g h = .ok g1) (hs : rollback c s h = .ok s1) :
+    WK w g1 s1 ∧ MN addrs P T N g1 s1 ∧ s1.sync = g1.sync ∧ s1.syncedTo = g1.syncedTo ∧ s1.status = g1.status ∧
+      EqOff (fun w' : Wid => w' ≠ w) s1.balance g1.balance ∧
+      (∀ h', AMap.get g1.blocks h' = if h' = h then none else AMap.get g.blocks h') ∧
+      (∀ h', AMap.get s1.blocks h' = if h' = h then none else AMap.get s.blocks h') := by
+  unfold rollback at hg hs
+  rw [hh, tip_heights] at hg
+  rw [h0.rs.2.1, hh, tip_heights] at hs
+  obtain ⟨ga, h1, h2⟩ := M_bind_ok hg
+  obtain ⟨sa, k1, k2⟩ := M_bind_ok hs
+  rw [List.foldlM_cons] at h1 k1
+  obtain ⟨ga', h1a, h1b⟩ := M_bind_ok h1
+  obtain ⟨sa', k1a, k1b⟩ := M_bind_ok k1
+  cases h1b; cases k1b
+  obtain ⟨hR, hB⟩ := blockAt_rel2 hOwn hCV (ga := { s := g, bals := g.balance }) (sa := { s := s, bals := s.balance })
+    h0 h0.rs.2.2.2.1 hblk h1a k1a
+  have hhg := blockAt_heights h1a
+  have hhs := blockAt_heights k1a
+  have ebg : ga.s.blocks = g.blocks := hR.rs.2.2.2.2.1
+  have ebs : sa.s.blocks = s.blocks := hR.rs.2.2.2.2.2
+  cases h2; cases k2
+  simp only [eraseHs_eq]
+  have hmg := minedEq_foldl (purgeSpenders c.own) ga.cb
+    { ga.s with blocks := ga.heights.foldl (fun b h => AMap.erase b h) ga.s.blocks }
+    (fun s op _ => minedEq_purgeSpenders c.own s op)
+  have hms := minedEq_foldl (purgeSpenders c.own) sa.cb
+    { sa.s with blocks := sa.heights.foldl (fun b h => AMap.erase b h) sa.s.blocks }
+    (fun s op _ => minedEq_purgeSpenders c.own s op)
+  refine ⟨?_, ?_, ?_, ?_, ?_, ?_, ?_, ?_⟩
+  · unfold WK
+    dsimp only
+    rw [hmg.unspent, hms.unspent, hmg.game, hms.game, hmg.addrs, hms.addrs]
+    exact hR.wk
+  · unfold MN
+    dsimp only
+    rw [hmg.credits, hms.credits, hmg.debits, hms.debits, hmg.txrecs, hms.txrecs]
+    exact hR.mn
+  · rw [hmg.sync, hms.sync]; exact hR.rs.1
+  · rw [hmg.syncedTo, hms.syncedTo]; exact hR.rs.2.1
+  · rw [hmg.status, hms.status]; exact hR.rs.2.2.1
+  · intro w' hw
+    rw [get_mergeBalances, get_mergeBalances, hB w' hw, hmg.balance, hms.balance]
+    dsimp only
+    rw [hR.rs.2.2.2.1 w' hw]
+  · intro h'
+    rw [hmg.blocks]
+    dsimp only
+    rw [hhg, ebg]
+    exact tipBlocks g.blocks h h'
+  · intro h'
+    rw [hms.blocks]
+    dsimp only
+    rw [hhs, ebs]
+    exact tipBlocks s.blocks h h'
+
+end rb
+
 end MW.Lemmas.RemoveSimW
